@@ -338,6 +338,10 @@ type XHistory struct {
 	// CompressRefs allows objects whose value is an indirect reference to be
 	// stored in object streams (7.5.7 does not except them).
 	CompressRefs bool
+	// DenseFirst makes the first revision's cross-reference stream list every
+	// number below /Size: numbers without an object get free entries, as
+	// producers write them which do not use /Index.
+	DenseFirst bool
 }
 
 func (h *XHistory) root() XRef {
@@ -765,7 +769,17 @@ func RenderHistory(r *Rand, h *XHistory, plain bool, encrypt func(num uint32, ge
 		switch rev.Kind {
 		case "stream":
 			tr["Size"] = int64(next + 1) // includes the xref stream's own number
-			sectionPos = renderXRefStream(rows, tr, r.Bool())
+			self := r.Bool()
+			if h.DenseFirst && ri == 0 {
+				self = true
+				for n := uint32(1); n < next; n++ {
+					if _, ok := rows[n]; !ok {
+						rows[n] = xrefRow{0, 0, 0}
+					}
+				}
+				info.Features = append(info.Features, "dense-first-xref-stream")
+			}
+			sectionPos = renderXRefStream(rows, tr, self)
 		case "hybrid":
 			if len(hidden) > 0 {
 				hd := XDict{"Size": int64(next + 1), "Root": h.root()}
